@@ -85,6 +85,16 @@ CHECKS = {
             'is the sum of the edges, tangential components within mu times normal (dims 3,4,6).',
             'Trusted: as C12. Not decided: PGS/noslip projection loops, qfrc_constraint product, island re-assembly.',
             'symbolic execution of the real bodies, z3/cvc5 NRA'),
+    'C30': ('DESIGN.md section 4 / C30',
+            'Deductive proof: mju_isBad flags exactly NaN and |x| > 1e10 for EVERY IEEE double (Float64 theory, exact); '
+            'mj_checkPos / mj_checkVel / mj_checkAcc (inductive search-loop invariants, all array lengths, with and without the sleep '
+            'filter): if no checked entry is bad nothing changes; otherwise the corresponding warning is raised for the first bad index, '
+            'its counter ends >= 1 and strictly larger than before when autoreset is disabled, and with autoreset the data is reset '
+            '(all other counters cleared). mj_warning itself is verified against its contract.',
+            'Trusted: VC generator, clang, z3/cvc5. Assumed contracts: mj_resetData (clears warning counters, may rewrite mjData), '
+            'mj_forward (keeps warning statistics). Sizes fit int. Not decided: finiteness of the state after a whole mj_step; the bad-ctrl '
+            'check inside mj_fwdActuation.',
+            'contracts + inductive loop invariants, z3 QF_FP / LIA + arrays + quantifiers'),
 }
 
 NA = {
